@@ -204,6 +204,18 @@ def build_variant(v):
             os.replace(tmp, out)
             open(stamp, "w").write(key)
         res["shim"] = out
+    elif v == "oracle":
+        src = os.path.join(VERIF, "native", "oracle.c")
+        out = os.path.join(BUILD, "bin", "liboracle.so")
+        key = file_hash(src)
+        stamp = out + ".stamp"
+        if not (os.path.exists(out) and os.path.exists(stamp) and open(stamp).read() == key):
+            os.makedirs(os.path.dirname(out), exist_ok=True)
+            tmp = out + ".%d.tmp" % os.getpid()
+            sh(["gcc", "-O2", "-g", "-fPIC", "-shared", "-o", tmp, src])
+            os.replace(tmp, out)
+            open(stamp, "w").write(key)
+        res["oracle"] = out
     elif v == "raidprop":
         objs = compile_objects("rel", RAID_SOURCES)
         res["raidprop"] = native("raidprop", "rel", ["raidprop.cpp"], objs, cxx=True, libs=("-lrapidcheck",))
